@@ -1,0 +1,22 @@
+//go:build verif
+
+package uci
+
+import (
+	"github.com/paulsonkoly/chess-3/board"
+	. "github.com/paulsonkoly/chess-3/chess"
+)
+
+// This file is only compiled with the `verif` build tag. It exposes private
+// helpers of the driver to the verification harness in /verif and adds no
+// behaviour.
+
+// VerifLimits returns the soft and hard time limits (ms) the driver computes
+// for the given clock state, and whether the search is time-controlled.
+func VerifLimits(wtime, btime, winc, binc, mtime int64, stm Color) (soft, hard int64, timed bool) {
+	tc := timeControl{wtime: wtime, btime: btime, winc: winc, binc: binc, mtime: mtime}
+	return tc.softLimit(stm), tc.hardLimit(stm), tc.timedMode(stm)
+}
+
+// VerifBoard is the driver's current board.
+func (d *Driver) VerifBoard() *board.Board { return d.board }
